@@ -665,7 +665,8 @@ def write_evidence(res, tier, seed, real, kn):
                                  "encodings produced by Python, their expected outcome is computed by TLC like for every other vector",
         },
         "assumptions": [
-            "spec/proto/baseline.json (descriptors extracted from the pinned tree) is the oracle for the 425 or so messages without an "
+            "spec/proto/baseline.json (descriptors extracted from the pinned tree) is the oracle for the "
+            f"{len([r for r in msgs if not r['hasref'] and r['inbase']])} messages without an "
             "independent reference: for those the check detects CHANGES, not errors already present when the baseline was taken",
             "osmosis-std 0.25.0 (cargo registry) is an independently generated binding of the shared Cosmos/IBC messages",
             "tools/proto_extract.py reads the prost attributes correctly (cross-checked: the real code must behave as the extracted "
